@@ -603,3 +603,39 @@ Example C07_cltv_commands_examples :
   m_evaluate (m_lib_table idh idh idh) c false false [Push [0; 101; 205; 29]; Op 177; Op 117; Op 81] = XTrue /\
   m_evaluate (m_lib_table idh idh idh) c false false [Op 85; Op 177; Op 117; Op 81] = XFalse.
 Proof. cbv zeta. repeat split; vm_compute; reflexivity. Qed.
+
+(* ---- OP_IF / OP_NOTIF succeed only on a BALANCED continuation (counting form; Model/IfCount.v,
+   Proofs/IfScanCountP.v).  The scan of op_if finds its OP_ENDIF only behind a prefix holding exactly as many
+   OP_ENDIFs as conditional openers; hence a continuation without OP_ENDIF — or one whose OP_ENDIFs are all used
+   up by nested conditionals — makes the op code return False on every stack, for both OP_IF and OP_NOTIF: a
+   conditional left open (e.g. at the end of a scriptSig) never swallows the commands that follow it. *)
+From V Require Model.IfCount Proofs.IfScanCountP.
+Theorem C07_op_if_needs_balanced_endif :
+  forall neg s items r, op_if_gen neg s items = Ok r ->
+  exists pre rest, items = pre ++ Op 104 :: rest /\ IfCount.n_endif pre = IfCount.n_open pre.
+Proof. exact IfScanCountP.op_if_ok_has_endif. Qed.
+Print Assumptions C07_op_if_needs_balanced_endif.
+
+Theorem C07_op_if_without_endif_fails :
+  forall neg s items, IfCount.n_endif items = 0%nat -> op_if_gen neg s items = Err.
+Proof. exact IfScanCountP.op_if_without_endif_fails. Qed.
+Print Assumptions C07_op_if_without_endif_fails.
+
+Theorem C07_op_if_unbalanced_fails :
+  forall neg s items,
+  (forall pre rest, items = pre ++ Op 104 :: rest -> IfCount.n_endif pre <> IfCount.n_open pre) ->
+  op_if_gen neg s items = Err.
+Proof. exact IfScanCountP.op_if_unbalanced_fails. Qed.
+Print Assumptions C07_op_if_unbalanced_fails.
+
+Theorem C07_if_scan_needs_endifs :
+  forall items need cur t f r, if_scan items need cur t f = Some r -> (need < IfCount.n_endif items)%nat.
+Proof. exact IfScanCountP.if_scan_needs_endifs. Qed.
+Print Assumptions C07_if_scan_needs_endifs.
+
+Example C07_unterminated_if_examples :
+  let spk := [Op 118; Op 169; Push [1;2;3]; Op 136; Op 172] in
+  op_if [[0]; [1]] spk = Err /\ op_notif [[1]; [1]] spk = Err /\ op_if [[]; [1]] (Op 103 :: spk) = Err /\
+  op_if [[]; [1]] (Op 99 :: Op 104 :: spk) = Err /\
+  (exists r, op_if [[1]; [1]] (Op 104 :: spk) = Ok r).
+Proof. exact IfScanCountP.unterminated_if_examples. Qed.
